@@ -4,7 +4,7 @@
 use crate::h::*;
 use vsched::rt;
 
-pub const OPS: &[&str] = &["D", "Dn", "Dx", "S", "Sn", "T", "FDa", "FDd", "FDs", "FSa", "FSx", "AF"];
+pub const OPS: &[&str] = &["D", "Dn", "Dx", "S", "Sn", "T", "FDa", "FDd", "FDs", "FSa", "FSx", "AF", "FDx"];
 
 pub fn op_code(name: &str) -> i64 {
     OPS.iter().position(|o| *o == name).unwrap() as i64
@@ -50,6 +50,7 @@ fn run_op(w: &std::sync::Arc<World>, o: &Obj, x: &Obj, code: i64, tag: &str, gat
         "FSa" => w.future_sync(o, &name, Body::gated(gate)).wait(),
         "FSx" => w.future_sync(o, &name, Body::gated(gate)).poll_then_drop(1),
         "AF" => w.after(o, &name, gate, Body::plain()).detach(),
+        "FDx" => w.future_desync(o, &name, Body::gated(gate)).poll_then_drop(1),
         _ => unreachable!(),
     }
 }
@@ -62,6 +63,15 @@ fn prog(cfg: &Cfg) {
     let w = World::new();
     let (o, x) = if raw { (w.raw(), w.raw()) } else { (w.desync_obj(), w.desync_obj()) };
     let gates = [Gate::new(), Gate::new(), Gate::new()];
+    // `busy` pool threads are pinned by blocking jobs on other objects until the environment releases them
+    let busy = cfg.opt("busy", 0);
+    let mut pins = vec![];
+    for i in 0..busy {
+        let bq = w.raw();
+        let bg = BGate::new();
+        w.desync(&bq, &format!("pin{}", i), Body::blocking(&bg));
+        pins.push((bq, bg));
+    }
     let t1 = {
         let (w, o, x, g0, g1) = (w.clone(), o.clone(), x.clone(), gates[0].clone(), gates[1].clone());
         spawn(move || {
@@ -80,8 +90,20 @@ fn prog(cfg: &Cfg) {
     for g in &gates {
         g.open();
     }
+    if cfg.opt("late", 0) == 0 {
+        for (_, bg) in &pins {
+            bg.open();
+        }
+    }
     join(t1, "t1");
     join(t2, "t2");
+    if cfg.opt("late", 0) == 1 {
+        // the pinned pool threads only become free after every caller has returned
+        rt::quiesce();
+        for (_, bg) in &pins {
+            bg.open();
+        }
+    }
     rt::quiesce();
     if pool == 0 {
         // with no pool threads queued work is carried by callers: kick both objects
@@ -94,6 +116,9 @@ fn prog(cfg: &Cfg) {
     w.check_quiet();
     expect_idle(&o);
     expect_idle(&x);
+    for (bq, _) in &pins {
+        expect_idle(bq);
+    }
     rt::outcome(w.rec.run_order().join(">"));
     check_no_unplanned_panics();
     drop(o);
